@@ -120,7 +120,7 @@ Proof. vm_compute. reflexivity. Qed.
 (* PATH LEVEL                                                                *)
 (* [sem_doc .. false p d] is the documented meaning of the path p on the
    document d; [sem_doc .. true p d] is the same list in which the situations of
-   the listed findings F12a / F29 are marked SOut, like the places where the
+   the listed finding F12a are marked SOut, like the places where the
    documentation is silent or says "error" (a segment applied to a slice
    result, an index into a set, a non-integer array slice, an unparsable search
    attribute, an invalid regular expression).  [specified] = no SOut marker.
@@ -180,7 +180,7 @@ Theorem C01_optional_on_existing_partial :
 Proof. exact optional_on_existing. Qed.
 Print Assumptions C01_optional_on_existing_partial.
 
-(* ---- the unguarded statement is false: F12a and F29 ---- *)
+(* ---- the unguarded statement is false: F12a ---- *)
 Definition sres_oids (l : list selres) : list (list N) :=
   map (fun s => match s with SNode n => [node_oid n] | SVirt ns => map node_oid ns | SOut => [] end) l.
 
@@ -196,16 +196,20 @@ Proof.
 Qed.
 Print Assumptions C01_required_sem_refuted.
 
-(* F29: {s: !!set {a, b}}, s.*[.=a] -- `*` returns every immediate child and the
-   filter keeps the member a; the code yields nothing (s.* and s[.=a] both work) *)
+(* F29, repaired (fix 5db14c1): {s: !!set {a, b}}, s.*[.=a] -- `*` returns every
+   immediate child and the filter keeps the member a.  The code used to yield
+   nothing (no set branch in _get_nodes_by_match_all_filtered; s.* and s[.=a]
+   both worked); it now yields the member, the strict reading marks nothing, so
+   the path is inside the guard of C01_required_sem_partial. *)
 Definition doc_f29 : node :=
   NMap (inf2 0) [(leaf2 1 (PStr "s"), NSet (inf2 2) [leaf2 3 (PStr "a"); leaf2 4 (PStr "b")])].
 Definition lit_str (s : string) : outcome litres := Ok LFail.
-Theorem C01_wildcard_filter_on_set_refuted :
+Example C01_wildcard_filter_on_set :
   match prepare 12 "s.*[.=a]" with
-  | Ok p => sres_oids (sem_doc lit_str re2 nstr2 false p doc_f29) = [[3%N]] /\
-            oids (get_required lit_str re2 nstr2 vstr2 kw2 cr2 p doc_f29) = ([], Err (YPE Unmatched)) /\
-            specified (sem_doc lit_str re2 nstr2 true p doc_f29) = false
+  | Ok p => c01_frag p = true /\
+            sres_oids (sem_doc lit_str re2 nstr2 false p doc_f29) = [[3%N]] /\
+            oids (get_required lit_str re2 nstr2 vstr2 kw2 cr2 p doc_f29) = ([3%N], Done) /\
+            specified (sem_doc lit_str re2 nstr2 true p doc_f29) = true
   | _ => False
   end.
 Proof. vm_compute. repeat split. Qed.
